@@ -265,6 +265,27 @@ def symptoms_pair(ra, rb):
             out.append("hash-raises")
         elif ha != hb:
             out.append("hash-mismatch")
+    # == and hash must not depend on the history of the two objects: printing a term caches its
+    # representation (and is what every user of the result dictionaries does)
+    h_before = (safe_hash(a), safe_hash(b))
+    try:
+        for t in (a, b):
+            str(t)
+            repr(t)
+    except Exception:  # noqa - printing problems are C17's business
+        pass
+    else:
+        if type(e) is bool and safe_eq(a, b) != e:
+            out.append("eq-changes-after-printing")
+        if type(e2) is bool and safe_eq(b, a) != e2:
+            out.append("eq-changes-after-printing")
+        if (safe_hash(a), safe_hash(b)) != h_before:
+            out.append("hash-changes-after-printing")
+        out = sorted(set(out), key=out.index)
+    try:
+        a, b = build(ra), build(rb)
+    except Exception:  # noqa
+        return out
     if is_ground_recipe(ra) and is_ground_recipe(rb) and type(e) is bool:
         u = unify_identical(a, b)
         u2 = unify_identical(b, a)
